@@ -83,9 +83,9 @@ def gen_code(rng, names, depth, me=None):
             code.append(['newproc', x, ['gen'] + gen_code(rng, names, depth + 1, x)])
         elif r < 0.91 and evs:
             code.append(['addcb', rng.choice(evs), rng.randint(40, 49)])
-        elif r < 0.95 and evs:
+        elif r < 0.93 and evs:
             code.append(['probe', rng.choice(evs)])
-        elif r < 0.965:
+        elif r < 0.95:
             n = rng.choice([['delay', rng.choice(DEL)], ['cond', ['after', rng.choice([1, 2, 3, 4])]], ['cond', ['flag', 0]]])
             code.append(['yieldnative', n, int(rng.random() < 0.85)])
         elif r < 0.975:
